@@ -2,9 +2,11 @@ package harness
 
 import (
 	"fmt"
+	"strings"
 
 	"github.com/jcmturner/gokrb5/v8/crypto"
 	"github.com/jcmturner/gokrb5/v8/crypto/etype"
+	"github.com/jcmturner/gokrb5/v8/types"
 )
 
 var allEtypes = []int32{16, 17, 18, 19, 20, 23}
@@ -94,12 +96,31 @@ func goEncrypt(et int32, key, pt []byte, usage uint32) (ct []byte, err error, pa
 	return
 }
 
+// goDecrypt decrypts through the etype's method and through the two package-level entry points
+// (crypto.DecryptMessage, crypto.DecryptEncPart), which must all give the same answer.
 func goDecrypt(et int32, key, ct []byte, usage uint32) (pt []byte, err error, pan string) {
 	pan = Protect(func() { pt, err = mustEtype(et).DecryptMessage(key, ct, usage) })
+	if pan != "" {
+		return
+	}
+	first := decRes(pt, err, "")
+	var pt2, pt3 []byte
+	var err2, err3 error
+	k := types.EncryptionKey{KeyType: et, KeyValue: key}
+	pan2 := Protect(func() { pt2, err2 = crypto.DecryptMessage(append([]byte{}, ct...), k, usage) })
+	pan3 := Protect(func() {
+		pt3, err3 = crypto.DecryptEncPart(types.EncryptedData{EType: et, KVNO: 1, Cipher: append([]byte{}, ct...)}, k, usage)
+	})
+	if r2, r3 := decRes(pt2, err2, pan2), decRes(pt3, err3, pan3); r2 != first || r3 != first {
+		return nil, nil, fmt.Sprintf("DISAGREE etype method: %s, crypto.DecryptMessage: %s, crypto.DecryptEncPart: %s", cut(first, 40), cut(r2, 40), cut(r3, 40))
+	}
 	return
 }
 
 func decRes(pt []byte, err error, pan string) string {
+	if strings.HasPrefix(pan, "DISAGREE") {
+		return "entry-points-disagree"
+	}
 	if pan != "" {
 		return "panic"
 	}
